@@ -769,6 +769,29 @@ def tokenwise_reference(lines, macros):
     return out
 
 
+def gen_repeated_literals(rng):
+    """straight-line code in which the same literals come back (a, b, a; a, a) and up to three scratch
+    registers are in play per instruction: what a "literal already in a register" cache would get wrong"""
+    lits = rng.sample([0, 1, 2, 5, 7, 9, 13], 3)
+    acc = [0, rng.randrange(4)]
+    prog = [{"m": "set", "a": [], "o": [{"r": acc}, {"i": 0}]},
+            {"m": "array", "a": [], "o": [{"i": 8}, {"a": 0}]}]
+    pattern = rng.choice([[0, 1, 0], [0, 0], [0, 1, 2, 0, 1], [0, 1, 0, 1], [2, 0, 2, 2, 1, 0]])
+    for k in pattern + [rng.randrange(3) for _ in range(rng.randrange(0, 4))]:
+        a = lits[k]
+        r = rng.random()
+        if r < 0.5:
+            prog.append({"m": rng.choice(["add", "sub"]), "a": [], "o": [{"r": acc}, {"r": acc}, {"i": a}]})
+        elif r < 0.7:
+            prog.append({"m": "addm", "a": [], "o": [{"r": acc}, {"i": a}, {"i": lits[(k + 1) % 3]}, {"i": 64}]})
+        elif r < 0.85:
+            prog.append({"m": "store", "a": [], "o": [{"i": a}, {"e": [0, {"i": lits[(k + 1) % 3] % 8}]}]})
+        else:
+            prog.append({"m": "add", "a": [], "o": [{"r": acc}, {"i": a}, {"i": a}]})
+    prog += [{"m": "ret_reg", "a": [], "o": [{"r": acc}]}, {"m": "ret_arr", "a": [], "o": [{"a": 0}]}]
+    return prog
+
+
 def sequential_reference(lines, macros):
     """What `_apply_macros` promises for ANY macro list (from the statement, no model): the macros are
     applied one after the other in preamble order; each pass replaces every use `$name` (longest run of
@@ -1156,14 +1179,14 @@ def in_scope(prog):
     return True
 
 
-def oracle(prog, unit_size=3, reserved=()):
+def oracle(prog, unit_size=3, reserved=(), static=True):
     """None if the assembled program behaves like the source, else a description.  Programs the
     assembler rejects are skipped unless the rejection itself contradicts the statement
     (a well-formed program with a free register must assemble).  `reserved` registers hold live
     values of an earlier subroutine: they are given values before both runs and compared after."""
     reserved = [tuple(r) for r in reserved]
     res, sub = real_assemble(prog, reserved)
-    if sub is not None:
+    if sub is not None and static:
         bad = static_oracle(prog, res["ok"], reserved)
         if bad is not None:
             return bad
